@@ -821,8 +821,6 @@ type ruleGroup struct {
 }
 
 var differentialGroups = []ruleGroup{
-	{"single-root-subscription", map[string]bool{"singleRootSubscription": true},
-		func(m string) bool { return strings.HasPrefix(m, "subscriptions may only") }},
 	{"overlapping-fields", map[string]bool{"fieldsMerge": true}, isMergeClass},
 }
 
@@ -1223,7 +1221,7 @@ func main() {
 		h.process(&c, ev)
 	}
 
-	nSchemas := run.Scale(450, 9000)
+	nSchemas := run.Scale(360, 8000)
 	docsPerSchema := run.Scale(14, 16)
 	mutsPerDoc := run.Scale(4, 6)
 	for si := 0; si < nSchemas; si++ {
